@@ -56,6 +56,10 @@ pub struct Case {
     /// bounded-preemption sweep over a pause-free history (every placement of one pause)
     #[serde(default, skip_serializing_if = "Option::is_none")]
     pub sweep: Option<u8>,
+    /// a history with timeouts on a virtual clock (unmanaged pool with a runtime), run by the
+    /// tsim interpreter; `build`, `n` and `steps` are unused then
+    #[serde(default, skip_serializing_if = "Option::is_none")]
+    pub timed: Option<tsim::Case>,
 }
 
 impl Step {
@@ -1332,7 +1336,7 @@ fn case(prop: &str, thorough: bool) -> BoxedStrategy<Case> {
         0u8..=4,
         prop::collection::vec(step(prop), 1..=maxlen),
     )
-        .prop_map(|(build, n, steps)| Case { build, n, steps, sweep: None })
+        .prop_map(|(build, n, steps)| Case { build, n, steps, sweep: None, timed: None })
         .boxed()
 }
 
@@ -1368,6 +1372,7 @@ fn sweep_case(prop: &str, thorough: bool) -> BoxedStrategy<Case> {
             n,
             steps: steps.into_iter().map(strip_pauses).collect(),
             sweep: Some(1),
+            timed: None,
         })
         .boxed()
 }
@@ -1420,6 +1425,7 @@ fn run_sweep(ctx: &Ctx, case: &Case) -> Report {
                     n: base.n,
                     steps,
                     sweep: None,
+                    timed: None,
                 };
                 let r = Interp::new(ctx, &sub).run();
                 rep.executions += 1;
@@ -1492,7 +1498,7 @@ impl Engine for Usim {
 
     fn stages(ctx: &Ctx) -> Vec<Stage<Case>> {
         let thorough = ctx.tier == Tier::Thorough;
-        vec![
+        let stages_v = vec![
             Stage {
                 name: "random".into(),
                 cases: if thorough { 16 * 30000 } else { 16 * 1500 },
@@ -1503,10 +1509,29 @@ impl Engine for Usim {
                 cases: if thorough { 16 * 600 } else { 16 * 40 },
                 strategy: sweep_case(&ctx.prop, thorough),
             },
-        ]
+        ];
+        let mut stages = stages_v;
+        if ctx.prop == "C12" {
+            // calls with a timeout need a runtime: unmanaged histories on the virtual clock,
+            // judged for panics and for Closed after close() only
+            stages.push(Stage {
+                name: "timeouts".into(),
+                cases: if thorough { 16 * 60000 } else { 16 * 4000 },
+                strategy: tsim::case(thorough)
+                    .prop_map(|mut t| {
+                        t.unmanaged = true;
+                        Case { build: Build::New, n: 0, steps: vec![], sweep: None, timed: Some(t) }
+                    })
+                    .boxed(),
+            });
+        }
+        stages
     }
 
     fn run(ctx: &Ctx, case: &Case) -> Report {
+        if let Some(t) = &case.timed {
+            return <tsim::Tsim as Engine>::run(ctx, t);
+        }
         if case.sweep.is_some() {
             run_sweep(ctx, case)
         } else {
@@ -1558,5 +1583,6 @@ pub fn decode(data: &[u8], prop: &str) -> arbitrary::Result<Case> {
         n,
         steps,
         sweep: None,
+        timed: None,
     })
 }
